@@ -308,6 +308,9 @@ func (sim) Execute(env *core.Env, p *core.Plan) {
 	if p.Prop == "C14" && core.Mix(p.Seed, 0xc14e)%2 == 0 {
 		x.readerBesideWriter()
 	}
+	if (p.Prop == "C01" || p.Prop == "C13") && core.Mix(p.Seed, 0xc14e)%4 == 0 {
+		x.queriesBesideWriter()
+	}
 	var en *enumerator
 	if p.Prop == "C10" {
 		en = &enumerator{x: x}
